@@ -145,6 +145,13 @@ def verify(harness, shape, params=None, kind='automaton', seed=0,
     t0 = time.time()
     try:
         records, stats = eng.explore(h)
+        guessed = [k for k, v in functions.items() if v.get('renamed')]
+        if guessed and any(r['status'] == 'refuted' and (r.get('replay') or {}).get('outcome') != 'violates'
+                           for r in records if r['kind'] != 'canary'):
+            # obligations generated under a GUESSED mapping of renamed locals that
+            # fail without a failing input say nothing about the code
+            raise eng.Unsupported(f'locals of {guessed} were renamed positionally and the proof does not go '
+                                  'through under that mapping (mapping uncertain)')
         if completed[0] == 0 and not any(r['status'] == 'refuted' for r in records):
             # vacuity guard: every path ended at a loop cut (or was infeasible),
             # so no postcondition of the harness was ever stated
